@@ -818,6 +818,38 @@ pub proof fn lemma_close_group(s: MState, tag: DelimiterTag, m: Map<String, IppA
     }
 }
 
+/// the encoded groups, one after the other: the operation group (k = 0)
+pub proof fn lemma_groups_base(gs: Seq<IppAttributeGroup>, ops: Seq<String>, others: Seq<(int, Seq<String>)>, rest: Seq<u8>)
+    requires
+        message_dom(gs), others_ok(gs, others),
+        key_perm(ops, gs[0].sattrs()),
+    ensures
+        m_run(s1(0x01) + keys_enc(gs[0].sattrs(), ops, ops.len()) + others_enc(gs, others, 0) + rest, m_init())
+            == m_run(rest, groups_state(gs, ops, others, 0)),
+        ({ let (g, ks) = emitted(gs, ops, others, 0);
+           group_state(groups_state(gs, ops, others, 0), g.stag(), Map::<String, AVal>::empty(), g.sattrs(), ks, ks.len()) }),
+        groups_state(gs, ops, others, 0).groups == expected_groups(gs, ops, others).take(0),
+{
+    reveal(m_delim);
+    reveal(m_flush);
+    let (g, ks) = emitted(gs, ops, others, 0);
+    let m = g.sattrs();
+    lemma_delimiter_byte(g.stag());
+    assert forall|i: int| 0 <= i < ks.len() implies m.contains_key(#[trigger] ks[i]) by {
+        assert(ks.to_set().contains(ks[i]));
+    }
+    let s0 = m_init();
+    let body = keys_enc(m, ops, ops.len()) + (others_enc(gs, others, 0) + rest);
+    assert(s1(0x01) + keys_enc(m, ops, ops.len()) + others_enc(gs, others, 0) + rest =~= s1(0x01) + body);
+    lemma_delim(0x01, body, s0);
+    let sd = m_delim(s0, DelimiterTag::OperationAttributes);
+    assert(g.stag() == DelimiterTag::OperationAttributes) by { crate::verif_lemmas::lemma_first_op(gs); }
+    assert(sd.stack =~~= seq![Seq::<AVal>::empty()]);
+    lemma_attrs(m, ops, ops.len(), others_enc(gs, others, 0) + rest, sd, g.stag());
+    assert(others_enc(gs, others, 0) + rest =~= rest);
+    assert(groups_state(gs, ops, others, 0).groups =~= expected_groups(gs, ops, others).take(0));
+}
+
 /// the encoded groups, one after the other
 pub proof fn lemma_groups(gs: Seq<IppAttributeGroup>, ops: Seq<String>, others: Seq<(int, Seq<String>)>, k: nat, rest: Seq<u8>)
     requires
@@ -831,26 +863,17 @@ pub proof fn lemma_groups(gs: Seq<IppAttributeGroup>, ops: Seq<String>, others: 
         groups_state(gs, ops, others, k).groups == expected_groups(gs, ops, others).take(k as int),
     decreases k,
 {
-    reveal(m_delim);
-    reveal(m_flush);
-    let (g, ks) = emitted(gs, ops, others, k as int);
-    let m = g.sattrs();
-    lemma_delimiter_byte(g.stag());
-    assert forall|i: int| 0 <= i < ks.len() implies m.contains_key(#[trigger] ks[i]) by {
-        assert(ks.to_set().contains(ks[i]));
-    }
     if k == 0 {
-        let s0 = m_init();
-        let body = keys_enc(m, ops, ops.len()) + (others_enc(gs, others, 0) + rest);
-        assert(s1(0x01) + keys_enc(m, ops, ops.len()) + others_enc(gs, others, 0) + rest =~= s1(0x01) + body);
-        lemma_delim(0x01, body, s0);
-        let sd = m_delim(s0, DelimiterTag::OperationAttributes);
-        assert(g.stag() == DelimiterTag::OperationAttributes) by { crate::verif_lemmas::lemma_first_op(gs); }
-        assert(sd.stack =~~= seq![Seq::<AVal>::empty()]);
-        lemma_attrs(m, ops, ops.len(), others_enc(gs, others, 0) + rest, sd, g.stag());
-        assert(others_enc(gs, others, 0) + rest =~= rest);
-        assert(groups_state(gs, ops, others, 0).groups =~= expected_groups(gs, ops, others).take(0));
+        lemma_groups_base(gs, ops, others, rest);
     } else {
+        reveal(m_delim);
+        reveal(m_flush);
+        let (g, ks) = emitted(gs, ops, others, k as int);
+        let m = g.sattrs();
+        lemma_delimiter_byte(g.stag());
+        assert forall|i: int| 0 <= i < ks.len() implies m.contains_key(#[trigger] ks[i]) by {
+            assert(ks.to_set().contains(ks[i]));
+        }
         let (gp, ksp) = emitted(gs, ops, others, k - 1);
         let ge = group_enc(g, ks);
         let prev = groups_state(gs, ops, others, (k - 1) as nat);
